@@ -31,7 +31,7 @@ CONSTANTS Keys,        \* a set of naturals; Hash(k) = k as for Int keys
 VARIABLES slots, nslots, nitems, g, act, crashed
 
 vars == <<slots, nslots, nitems, g, act, crashed>>
-view == <<slots, nslots, nitems, crashed>>          \* VIEW: g is determined by slots when the invariants hold
+view == <<slots, nslots, nitems, g, crashed>>          \* VIEW: everything but the action label (ghost included: a step that changes only g must be judged)
 
 FM == INSTANCE FiniteMap WITH m <- g
 
